@@ -200,7 +200,7 @@ q["require_probes"] = t["require_probes"] = ["untrusted_calls", "permitted_calls
 plan("C19", "other",
      "complete table: server configuration {authority configured, no authority configured} x every method of the five registered gRPC services (16) x caller credential {plaintext, TLS without "
      "client certificate, self-signed with a permitted name, other authority with a permitted name, authority from the host trust store with a permitted name, certificate chained through a "
-     "non-CA certificate of the configured authority, valid unpermitted client, valid client-test01, valid client-test02, valid peer certificate, a valid certificate followed in the chain by a self-made certificate bearing a permitted name (two variants)} x target wallet {Wallet 1, Wallet 2} = 768 cases.",
+     "non-CA certificate of the configured authority, valid unpermitted client, valid client-test01, valid client-test02, valid peer certificate, a valid certificate followed in the chain by a self-made certificate bearing a permitted name (two variants), a self-made certificate with a permitted name followed by a genuine client's public certificate} x target wallet {Wallet 1, Wallet 2} = 832 cases.",
      q, t, real_vs_stub=REAL_W5,
      explanation="No scheduler and no fault sequence applies to this property; the check is an exhaustive table over a live in-process daemon edge (real gRPC, TLS, interceptors, handlers, services) "
                  "attacked by hostile and legitimate clients. Callers without a certificate from the configured authority must obtain no response message at all and change no state (with no "
